@@ -8,8 +8,29 @@ namespace Exa.WireExa
 open Exa Exa.Wire
 open Exa.Generated.ExaEncTable
 
-theorem sameVal_refl (a : AttrVal) : SameVal a a := by
-  cases a <;> simp [SameVal]
+theorem sameVal_refl (a : AttrVal) : SameVal a a := Or.inl rfl
+
+/-- For a value that is not a community list, `SameVal` is equality. -/
+theorem sameVal_eq (w v : AttrVal) (h : SameVal w v)
+    (h8 : ∀ y, v ≠ .communities y) (h16 : ∀ y, v ≠ .extCommunities y) (h32 : ∀ y, v ≠ .largeCommunities y) :
+    w = v := by
+  rcases h with h | ⟨x, y, _, e, _⟩ | ⟨x, y, _, e, _⟩ | ⟨x, y, _, e, _⟩
+  · exact h
+  · exact absurd e (h8 y)
+  · exact absurd e (h16 y)
+  · exact absurd e (h32 y)
+
+theorem sameOpt_some_eq (x : Option AttrVal) (v : AttrVal) (h : SameOpt x (some v))
+    (h8 : ∀ y, v ≠ .communities y) (h16 : ∀ y, v ≠ .extCommunities y) (h32 : ∀ y, v ≠ .largeCommunities y) :
+    x = some v := by
+  cases x with
+  | none => exact absurd h (by simp [SameOpt])
+  | some w => rw [sameVal_eq w v h h8 h16 h32]
+
+theorem sameOpt_none (x : Option AttrVal) (h : SameOpt x none) : x = none := by
+  cases x with
+  | none => rfl
+  | some w => exact absurd h (by simp [SameOpt])
 
 theorem sameOpt_refl (a : Option AttrVal) : SameOpt a a := by
   cases a with
@@ -64,8 +85,8 @@ theorem attrs_meet (p : SessParams) (r : RouteReq) (nh : Bytes) (tail : List Att
         simp only
         by_cases hn : cs = []
         · simp [hn, SameOpt]
-        · simp only [hn, if_false, SameOpt, SameVal]
-          intro x; exact mem_sortBy id cs x
+        · simp only [hn, if_false, SameOpt]
+          exact Or.inr (Or.inl ⟨_, _, rfl, rfl, fun x => mem_sortBy id cs x⟩)
   by_cases h9 : c = 9
   · subst h9; rw [rep9 p r nh tail ht]; exact sameOpt_refl _
   by_cases h10 : c = 10
@@ -78,8 +99,8 @@ theorem attrs_meet (p : SessParams) (r : RouteReq) (nh : Bytes) (tail : List Att
       show ¬ (16 = 9) by decide, show ¬ (16 = 10) by decide, if_false, if_true]
     by_cases hn : extAll r.attrs = []
     · simp [hn, SameOpt]
-    · simp only [hn, if_false, SameOpt, SameVal]
-      intro x; exact mem_sortBy key2 _ x
+    · simp only [hn, if_false, SameOpt]
+      exact Or.inr (Or.inr (Or.inl ⟨_, _, rfl, rfl, fun x => mem_sortBy key2 _ x⟩))
   by_cases h32 : c = 32
   · subst h32
     rw [rep32 p r nh tail ht]
@@ -94,9 +115,8 @@ theorem attrs_meet (p : SessParams) (r : RouteReq) (nh : Bytes) (tail : List Att
         simp only
         by_cases hn : cs = []
         · simp [hn, SameOpt]
-        · simp only [hn, if_false, SameOpt, SameVal]
-          intro x
-          rw [mem_sortBy, mem_dedup]
+        · simp only [hn, if_false, SameOpt]
+          exact Or.inr (Or.inr (Or.inr ⟨_, _, rfl, rfl, fun x => by rw [mem_sortBy, mem_dedup]⟩))
   have hw0 : want p r c = none := by simp [want, h1, h2, h4, h5, h6, h7, h8, h9, h10, h16, h32]
   rw [hw0]
   by_cases h17 : c = 17
